@@ -20,7 +20,9 @@ PROPERTY = "C16"
 META = {
     "level": "exploration",
     "rule": (
-        "knapsack: n<=10 (thorough 14) items; integer class (weights 0-9, capacity 0-20, values ints or tenths), dyadic "
+        "knapsack: n<=10 (thorough 14) items; integer class (weights 0-9, capacity 0-20, values ints or tenths), huge-integer "
+        "class (~6%: capacity 100000, 100001 or up to 400000, n<=6/8, weights 0-3 next to capacity-sized ones placed so that "
+        "all light items plus one heavy item fit exactly / miss by one), dyadic "
         "class (k/8 weights, capacity <=10, values ints, k/8 or tenths), dyadic-fine class (k/8 + e/1024: subsets that "
         "overshoot the capacity by less than one unit of a x1000 grid, the greedy-fallback territory), hundredths class "
         "(k/100, 25% drawn from the values whose x1000 product truncates one too low) and a small dyadic class with "
@@ -75,11 +77,67 @@ def _size_n(draw, nmax, nmin=1):
     return 0 if _chance(draw, 3) else draw(st.integers(nmin, nmax))
 
 
+def _huge_int_case(draw, tier):
+    """Integer data of large magnitude: capacity 100000..400000 (the statement's "exact for integer weights and
+    capacity" has no size limit), a few very light items (0..3) next to heavy ones placed so that "all the light
+    items plus one heavy item" fits exactly, by one unit, or misses by one unit.  Any implementation that coarsens
+    the capacity axis (cells wider than 1) misjudges exactly these.  solvOR's DP is capacity-sized here (~0.13 us per
+    cell and light item, a heavy item only touches capacity - weight cells), hence n <= 6 (thorough 8) and a ~6% share."""
+    nmax = 8 if tier == "thorough" else 6
+    if _chance(draw, 16):  # the boundary of any "table of at most 100000 cells" rule
+        cap = draw(st.sampled_from([100000, 100001]))
+    else:  # spread over the whole range (st.integers alone piles up just above the lower bound); shrinks to 111002
+        k = (draw(st.integers(0, 299)) * 37 + 11) % 300
+        cap = min(400000, 100002 + 1000 * k + draw(st.integers(0, 999)))
+    n = draw(st.integers(2, nmax))
+    n_light = draw(st.integers(max(1, n - 3), n - 1))  # mostly several light items and 1-3 heavy ones
+    light = [0 if _chance(draw, 10) else draw(st.integers(1, 3)) for _ in range(n_light)]
+    ls = sum(light)
+    heavy = []
+    for _ in range(n - n_light):
+        kind = draw(st.sampled_from(["fill", "fill", "fill", "part", "part", "fill+1", "fill-1", "half", "cap"]))
+        d = draw(st.integers(0, 3))
+        if kind == "fill":  # together with every light item: exactly the capacity
+            w = cap - ls
+        elif kind == "fill+1":  # one unit too heavy for that: one light unit must stay out
+            w = cap - ls + 1
+        elif kind == "fill-1":
+            w = cap - ls - 1
+        elif kind == "half":  # two of these fit exactly / almost
+            w = cap // 2 + d - 1
+        elif kind == "cap":
+            w = cap - d
+        else:  # fills the capacity together with a subset of the light items
+            w = cap - sum(x for x in light if draw(st.booleans()))
+        heavy.append(min(cap, max(1, w)))
+    weights = light + heavy
+    # light items are worth little, heavy ones a lot or a little: the optimum needs the right mix
+    hv = draw(st.sampled_from([1, 2, 5, 10, 20]))
+    same = draw(st.booleans())  # equally valuable heavy items: the light items decide which one is right
+    values = [0 if _chance(draw, 10) else draw(st.integers(1, 3)) for _ in light]
+    values += [hv if same else draw(st.sampled_from([1, 2, 5, 10, 20])) for _ in heavy]
+    perm = list(draw(st.permutations(range(n))))
+    return {
+        "cls": "int-huge",
+        "family": "huge",
+        "vden": 1,
+        "values": [values[i] for i in perm],
+        "wden": 1,
+        "weights": [weights[i] for i in perm],
+        "cap": cap,
+        "minimize": _chance(draw, 10),
+        "as_float": draw(st.booleans()),
+        "tuples": draw(st.booleans()),
+    }
+
+
 @st.composite
 def knap_cases(draw, tier="quick"):
     nmax = 14 if tier == "thorough" else 10
     r = draw(st.integers(0, 99))
-    cls = "int" if r < 50 else "dyadic" if r < 72 else "dyadic-fine" if r < 84 else "hundredths" if r < 96 else "dyadic-big"
+    cls = "int" if r < 44 else "int-huge" if r < 50 else "dyadic" if r < 72 else "dyadic-fine" if r < 84 else "hundredths" if r < 96 else "dyadic-big"
+    if cls == "int-huge":
+        return _huge_int_case(draw, tier)
     family = draw(st.sampled_from(["uniform", "zero-cap", "exact-fill", "ties", "zero-weights", "trap"]))
     # wden: denominator of weights/capacity; wmax/cmax: largest numerators (dyadic-fine: in eighths, see fine())
     if cls == "int":
